@@ -21,6 +21,10 @@ from . import rng as rng_lib
 SIMLAT_VERSION = 1
 
 
+class HarnessError(Exception):
+  """A failure of the simulator itself; never counted as a violation."""
+
+
 class SutError(Exception):
   """An exception raised by the system under test (tfl / Keras / TF)."""
 
@@ -153,7 +157,7 @@ class Ctx(object):
     """Marks a region that executes real tfl / Keras / TF code."""
     try:
       yield
-    except SutError:
+    except (SutError, HarnessError):
       raise
     except Exception as e:  # pylint: disable=broad-except
       raise SutError(op, e)
@@ -180,7 +184,7 @@ def _load_worlds():
     return
   _LOADED["done"] = True
   import importlib
-  for name in ("kfl", "premade", "stack", "roundtrip", "objects"):
+  for name in ("kfl", "modelworld"):
     try:
       importlib.import_module("simlat.worlds." + name)
     except ModuleNotFoundError as e:
